@@ -133,8 +133,13 @@ func c15Run(w *mc.W, h c15History, observe bool) (stateKey string, nslots int) {
 				slots = append(slots, &c15Slot{k: k, x: x, rkey: rk, net: "mainnet", prov: "newext(B)"})
 			case "child":
 				var idx uint32
-				if op.Arg == "h" {
+				switch op.Arg {
+				case "h":
 					idx = 1 << 31
+				case "s1":
+					idx = c15ShortIdx()[0]
+				case "s2":
+					idx = c15ShortIdx()[1]
 				}
 				ck, err := s.k.Child(idx)
 				cx, st, rk := c04RefChild(s.rkey, s.x, idx)
@@ -297,6 +302,31 @@ func c15Run(w *mc.W, h c15History, observe bool) (stateKey string, nslots int) {
 	return stateKey, len(slots)
 }
 
+var (
+	c15ShortOnce sync.Once
+	c15Short     [2]uint32
+)
+
+// c15ShortIdx: the first two hardened child indices of master A whose child scalar is < 2^248
+// (reference-only scan; about one child in 256).
+func c15ShortIdx() [2]uint32 {
+	c15ShortOnce.Do(func() {
+		m, _, _ := c04RefMaster(mc.UnHex(c15Seeds["A"]))
+		n := 0
+		for i := uint32(0); i < 1<<16 && n < 2; i++ {
+			idx := i | 1<<31
+			if k, _, ok := ref.HardenedChildScalar(m.K, m.ChainCode, idx); ok && k.BitLen() <= 248 {
+				c15Short[n] = idx
+				n++
+			}
+		}
+		if n < 2 {
+			panic("harness: no two short child scalars found")
+		}
+	})
+	return c15Short
+}
+
 func c15Menu(nslots int, maxSlots int) []c15Op {
 	var ops []c15Op
 	if nslots < maxSlots {
@@ -306,6 +336,9 @@ func c15Menu(nslots int, maxSlots int) []c15Op {
 	for s := 0; s < nslots; s++ {
 		if nslots < maxSlots {
 			ops = append(ops, c15Op{Op: "child", Slot: s, Arg: "0"}, c15Op{Op: "child", Slot: s, Arg: "h"}, c15Op{Op: "neuter", Slot: s})
+			// two hardened children of master A whose private scalars have a leading zero byte (the
+			// derivation pads them): two live keys that both went through the padding code
+			ops = append(ops, c15Op{Op: "child", Slot: s, Arg: "s1"}, c15Op{Op: "child", Slot: s, Arg: "s2"})
 		}
 		ops = append(ops, c15Op{Op: "setnet", Slot: s, Arg: "testnet3"}, c15Op{Op: "setnet", Slot: s, Arg: "mainnet"},
 			c15Op{Op: "zero", Slot: s}, c15Op{Op: "string", Slot: s}, c15Op{Op: "ecpub", Slot: s}, c15Op{Op: "address", Slot: s})
@@ -317,7 +350,7 @@ func runC15(c *mc.Ctx) {
 	c04SelfTest()
 	depth := mc.Pick(c, 4, 5)
 	maxSlots := mc.Pick(c, 3, 4)
-	c.Rule(fmt.Sprintf("breadth-first search over all operation histories of depth <= %d on a pool of <= %d keys (menu: NewMaster x2, NewKeyFromString x2, NewExtendedKey, Child(0|2^31), Neuter, SetNet x2, Zero, String, ECPubKey, Address per slot); histories are merged only when the model state AND the implementation's buffer-sharing graph and memo flags (read by reflection) agree; every reached state is observed on all slots; non-trivial = states in which two live keys share a backing buffer or a key has been zeroed", depth, maxSlots))
+	c.Rule(fmt.Sprintf("breadth-first search over all operation histories of depth <= %d on a pool of <= %d keys (menu: NewMaster x2, NewKeyFromString x2, NewExtendedKey, Child(0|2^31|two hardened indices with a short child scalar), Neuter, SetNet x2, Zero, String, ECPubKey, Address per slot); histories are merged only when the model state AND the implementation's buffer-sharing graph and memo flags (read by reflection) agree; every reached state is observed on all slots; non-trivial = states in which two live keys share a backing buffer or a key has been zeroed", depth, maxSlots))
 	c.Assume("reference BIP32 model correct (vectors 1-3 reproduced)")
 	c.Assume("operations applied to an already zeroed key are outside the statement and are not issued")
 
